@@ -64,8 +64,17 @@ def parseEv (j : Json) : R TEv := do
     return ⟨t, ev⟩
   | _ => throw s!"bad event {j.compress}"
 
+def parseIdReq (j : Json) : R IdReq := do
+  match ← arr j with
+  | [cmd, rl, pat] => return ⟨← getBytes cmd, ← rl.getNat?, ← getBytes pat⟩
+  | _ => throw "bad ident entry"
+
 def parseCfg (j : Json) : R Cfg := do
-  return { bytesMode := ← fldBool j "bytes", eol := bytesOf (← fldStr j "eol"), timeout := ← fldNat j "timeout",
+  let ident ← match (j.getObjVal? "ident").toOption with
+    | some a => (← arr a).mapM parseIdReq
+    | none => pure []
+  let retry := ((j.getObjValAs? Bool "retry_first").toOption).getD true
+  return { ident := ident, retryFirst := retry, bytesMode := ← fldBool j "bytes", eol := bytesOf (← fldStr j "eol"), timeout := ← fldNat j "timeout",
            waitBefore := ← fldNat j "wait_before", interval := ← fldNat j "interval", gran := ← fldNat j "gran",
            slack := ← fldNat j "slack" }
 
